@@ -261,3 +261,24 @@ def flex(mode, idx, *args, **kwargs):
     if mode == 2:
         return b"x" * BIG_SIZES[idx]
     return ("called-with", args, tuple(sorted(kwargs.items())))
+
+
+def ctx_target(tag, x=0):
+    _pt("ctx-target")
+    return ("ctx", tag, x)
+
+
+def loop(n):
+    """Cooperative long-running target: lets exceptions propagate."""
+    import pyworkers.utils as utils
+    for i in range(n):
+        _pt("loop")
+        utils.time.sleep(1)
+    return "loop-done"
+
+
+def poolfn(run_tag, x):
+    if x == "stuck":
+        return swallow(300)
+    _pt("poolfn")
+    return ("p", run_tag, x)
